@@ -282,19 +282,23 @@ func (i *interpreter) slice(x, lo, hi, max value) value {
 		Cap = cap(a)
 	}
 
+	upper := int64(Len)
+	if int64(Cap) > upper {
+		upper = int64(Cap)
+	}
 	l := int64(0)
 	if lo != nil {
-		l = i.concreteIndex(lo, "slice low bound")
+		l = i.sliceBound(lo, upper, "slice low bound")
 	}
 
 	h := int64(Len)
 	if hi != nil {
-		h = i.concreteIndex(hi, "slice high bound")
+		h = i.sliceBound(hi, upper, "slice high bound")
 	}
 
 	m := int64(Cap)
 	if max != nil {
-		m = i.concreteIndex(max, "slice max bound")
+		m = i.sliceBound(max, upper, "slice max bound")
 	}
 
 	switch x := x.(type) {
@@ -309,6 +313,22 @@ func (i *interpreter) slice(x, lo, hi, max value) value {
 		return []value(a)[l:h:m]
 	}
 	panic(fmt.Sprintf("slice: unexpected X type: %T", x))
+}
+
+// sliceBound: a symbolic slice bound first forks on being inside [0, upper] (outside: the
+// run-time panic, as one path), then the few feasible values inside are enumerated.
+func (i *interpreter) sliceBound(v value, upper int64, why string) int64 {
+	sv, ok := v.(symv)
+	if !ok {
+		return asInt64(v)
+	}
+	c := i.tc
+	t := c.resize(sv.t, 64, kindSigned(sv.k))
+	inr := c.bvcmp("bvule", t, c.konst(sBV64, uint64(upper)))
+	if !i.decide(inr) {
+		panic(runtimeErr(fmt.Sprintf("runtime error: slice bounds out of range [symbolic] with capacity %d", upper)))
+	}
+	return int64(i.concretize(t, false, i.cfg.MaxConcretize, why))
 }
 
 // concreteIndex turns an index/length operand into a concrete int64,
